@@ -76,6 +76,13 @@ func main() {
 			terms = append(terms, runUpgradeCase(ta, *seed, i, rep, *profile))
 			rep.Cases++
 		}
+	case "vgenesis":
+		require, caseType, fn = "VestGenesis", "vgcase", "vgmismatches"
+		ta := NewTestApp(GenOpts{Time: time.Unix(1690000000, 0).UTC()})
+		for i := lo; i < hi; i++ {
+			terms = append(terms, runVGenesisCase(ta, *seed, i, rep, *profile))
+			rep.Cases++
+		}
 	case "migrate":
 		require, caseType, fn = "Migrate", "gcase", "gmismatches"
 		ta := NewTestApp(GenOpts{Time: time.Unix(1690000000, 0).UTC()})
